@@ -7,6 +7,7 @@ import CruxVerif.Model.Hosts
 import CruxVerif.Lemmas.HostLtRun
 import CruxVerif.Lemmas.GCoreHosts
 import CruxVerif.Lemmas.QHosts
+import CruxVerif.Lemmas.GParkCore
 namespace Props.C06
 open M.Rt
 
@@ -123,6 +124,27 @@ theorem sibling_commands_unaffected_flat (wk : Waker) (c : Nat) (w : World) (r :
     unfold World.aborted at ha ⊢
     rw [oth]
     exact ha
+
+/-- RUNNING ONE COMMAND NEVER STRANDS ANOTHER COMMAND'S TASKS. In a world of commands without combinators in which every
+    request channel has at most one waiting task (`RunInv.gb`: the global ownership of C02, with `e` the references held by
+    the executor's own tasks), settling the un-aborted command `cid` — polling its tasks, finishing and cancelling them,
+    waking join handles, spawning — keeps the invariant `RunInv`: afterwards every stored task of every OTHER live command is
+    still on its ready queue, aborted, or LIVE-PARKED at registrations of its own last waker (`gpo`), exactly as it was
+    before or better (a join-handle wake-up queues it), and so is every task of `cid` itself (`gp`). The wake registrations of
+    siblings are untouched by a command's run (Lemmas/GParkCore.lean: `poll_keeps_others_parked` across commands by
+    disjointness of channels, `finishTask_pk`, the accounting of C02 threaded through the executor loop). -/
+theorem running_a_command_never_strands_others (cid : Nat) (e : Nat → Nat) (w w' : World)
+    (h : runUntilSettled cid w = some w') (hna : w.aborted cid = false) (hw : RunInv cid e none w) :
+    RunInv cid e none w' ∧
+    ∀ c', c' ≠ cid → (w'.cmd c').alive = true → c' < w'.cmds.length → ∀ tid t, (w'.cmd c').tasks.get? tid = some t →
+      tid ∈ (w'.cmd c').ready ∨ (w'.getMeta t.serial).aborted = true ∨ ∃ s, LPB (.task c' tid s) w' t.fut := by
+  have r := runUntilSettled_ri cid e w w' h hna hw
+  exact ⟨r, fun c' hne hal hin tid t hg => r.gpo c' hne hal hin tid t hg (fun e => by cases e)⟩
+
+/-- the invariant is satisfiable: the initial world of any host-free task command satisfies it -/
+theorem RunInv_nonvacuous (is : List Instr) (hf : hostFreeIs is = true) :
+    RunInv (M.Hosts.Direct.new (.task is) false).cid (fun _ => 0) none (M.Hosts.Direct.new (.task is) false).w :=
+  M.Hosts.RunInv_init is hf false
 
 /-- … and the abort itself (`AbortHandle::abort`, from the shell or from a task) touches NO command's tasks, spawn queue or
     queued outputs — not even the target's: it sets the flag and wakes the host; the cancellation happens at the next poll -/
